@@ -2,7 +2,18 @@ package stanza
 
 import (
 	"encoding/xml"
+	"sync"
 )
+
+// maxForwardedDepth bounds how many <forwarded/> wrappers may be nested inside one another
+// (a forwarded stanza that itself carries a delegation with a forwarded stanza, and so on).
+// Every level re-enters the stanza decoder through custom unmarshalers, which restarts the
+// depth limit of encoding/xml: without a bound of our own the peer chooses how deep the Go
+// stack grows.
+const maxForwardedDepth = 32
+
+// forwardedDepth counts, per decoder, the <forwarded/> elements currently being decoded.
+var forwardedDepth sync.Map // *xml.Decoder -> int
 
 // ============================================================================
 // Handshake Stanza
@@ -63,6 +74,22 @@ type Forwarded struct {
 // UnmarshalXML is a custom unmarshal function used by xml.Unmarshal to
 // transform generic XML content into hierarchical Node structure.
 func (f *Forwarded) UnmarshalXML(d *xml.Decoder, start xml.StartElement) error {
+	depth := 1
+	if v, ok := forwardedDepth.Load(d); ok {
+		depth = v.(int) + 1
+	}
+	if depth > maxForwardedDepth {
+		// Deeper than any honest traffic: consume the element without decoding its content.
+		return d.Skip()
+	}
+	forwardedDepth.Store(d, depth)
+	defer func() {
+		if depth == 1 {
+			forwardedDepth.Delete(d)
+		} else {
+			forwardedDepth.Store(d, depth-1)
+		}
+	}()
 	// Check subelements to extract required field as boolean
 	for {
 		t, err := d.Token()
